@@ -70,6 +70,10 @@ def gen(seed, tier):
             at = rng.randrange(len(hist) + 1)
             first = rng.randrange(2)
             hist[at:at] = [[bigs[first], 0], [bigs[1 - first], 0], [bigs[first], 0]]
+        wides = [i for i, t in enumerate(programs) if any(l.count(',') >= 8 and l.split('(')[0] in ('wide', 'p', 'foo') for l in t.split('\n'))]
+        if wides and rng.random() < 0.5:
+            # the first thing this interpreter does: two programs with a 9-12-argument predicate compiled at the same time
+            hist.insert(0, ['par', [rng.choice(wides), 0], [rng.choice(wides), 0], rng.randrange(1 << 30)])
         if rng.random() < 0.6:
             # pairs of compilations that run at the same time in two threads of the interpreter (seeded pre-emption)
             for _ in range(rng.randrange(1, 4)):
